@@ -385,7 +385,45 @@ fn gen_segment(src: &mut Src, bed: &TcpBed, v: &View, peer_irs: u32, stream_seed
     t
 }
 
+/// The segment the RFC expects next in `state` (deep part: drives the socket along the
+/// good edges so that the random events meet it in the late states).
+fn helpful_segment(src: &mut Src, bed: &TcpBed, v: &View, peer_irs: u32, state: State) -> Option<Tcp> {
+    let irs = v.irs.unwrap_or(peer_irs);
+    let rcv_nxt = v.last_ack.unwrap_or(irs.wrapping_add(1));
+    let iss = v.iss?;
+    let snd_nxt = v.snd_nxt.unwrap_or(iss.wrapping_add(1));
+    let mk = |seq: u32, ack: Option<u32>, flags: u8| {
+        let mut t = Tcp::new(bed.rport, bed.lport, seq, None, flags | if ack.is_some() { ACK } else { 0 }, 4096);
+        if let Some(a) = ack {
+            t.ack = a;
+        }
+        t
+    };
+    match state {
+        State::SynSent => Some(mk(peer_irs, Some(iss.wrapping_add(1)), SYN)),
+        State::SynReceived => Some(mk(irs.wrapping_add(1), Some(iss.wrapping_add(1)), 0)),
+        State::Established | State::FinWait1 | State::FinWait2 => Some(match src.weighted(&[2, 2, 1]) {
+            0 => mk(rcv_nxt, Some(snd_nxt), FIN),
+            1 => mk(rcv_nxt, Some(snd_nxt), 0),
+            _ => mk(rcv_nxt, Some(v.fin_seq().map(|f| f.wrapping_add(1)).unwrap_or(snd_nxt)), FIN),
+        }),
+        State::Closing | State::LastAck => Some(mk(rcv_nxt, Some(v.fin_seq().map(|f| f.wrapping_add(1)).unwrap_or(snd_nxt)), 0)),
+        _ => None,
+    }
+}
+
 fn case(src: &mut Src, ctx: &mut Ctx) -> Result<(), Fail> {
+    run_case(src, ctx, false)
+}
+
+/// Same events, same oracle; the event choice leans towards what moves the connection
+/// forward, and close() is not called in SYN-RECEIVED (the open finding there would end
+/// the case before the late states are reached).
+fn case_deep(src: &mut Src, ctx: &mut Ctx) -> Result<(), Fail> {
+    run_case(src, ctx, true)
+}
+
+fn run_case(src: &mut Src, ctx: &mut Ctx, deep: bool) -> Result<(), Fail> {
     let v6 = src.chance(1, 5);
     let rx_cap = *src.pick(&[64usize, 256, 4096, 1, 16]);
     let tx_cap = *src.pick(&[64usize, 256, 4096, 16]);
@@ -412,7 +450,35 @@ fn case(src: &mut Src, ctx: &mut Ctx) -> Result<(), Fail> {
         n += 1;
         let before = bed.sock().state();
         // choose an event, biased by state so that deep states are reached
-        let ev = match src.weighted(&[12, 6, 2, 2, 2, 1, 2, 2, 3]) {
+        let steer = deep && src.chance(1, 2);
+        let ev = if steer {
+            match before {
+                State::Closed | State::TimeWait => {
+                    if src.bool() {
+                        Ev::Listen
+                    } else {
+                        Ev::Connect
+                    }
+                }
+                State::Listen => {
+                    let mut t = Tcp::new(bed.rport, bed.lport, peer_irs, None, SYN, 4096);
+                    if src.bool() {
+                        t.opts.push(TcpOpt::Mss(1460));
+                    }
+                    Ev::Seg(t)
+                }
+                State::CloseWait => src.pick(&[Ev::Close, Ev::Egress, Ev::Recv(64)]).clone(),
+                st0 => match (v.iss, src.weighted(&[3, 2, 1])) {
+                    (None, _) | (Some(_), 1) => Ev::Egress,
+                    (Some(_), 2) if st0 == State::Established => Ev::Close,
+                    _ => match helpful_segment(src, &bed, &v, peer_irs, st0) {
+                        Some(t) => Ev::Seg(t),
+                        None => Ev::Egress,
+                    },
+                },
+            }
+        } else {
+          match src.weighted(&[12, 6, 2, 2, 2, 1, 2, 2, 3]) {
             0 => Ev::Seg(gen_segment(src, &bed, &v, peer_irs, stream_seed)),
             1 => Ev::Egress,
             2 => Ev::Listen,
@@ -422,7 +488,10 @@ fn case(src: &mut Src, ctx: &mut Ctx) -> Result<(), Fail> {
             6 => Ev::Send(src.usize(1, 100)),
             7 => Ev::Recv(src.usize(1, 100)),
             _ => Ev::Time(*src.pick(&[1_000i64, 10_000, 1_000_000, 3_000_000, 9_999_999, 10_000_000, 60_000_000])),
+          }
         };
+        // (deep part) close() in SYN-RECEIVED is the registered open finding: stay clear of it
+        let ev = if deep && before == State::SynReceived && matches!(ev, Ev::Close) { Ev::Egress } else { ev };
         ctx.note(|| match &ev {
             Ev::Seg(s) => format!("[{}] segment {}", st(before), s),
             other => format!("[{}] {:?}", st(before), other),
@@ -573,14 +642,14 @@ fn case(src: &mut Src, ctx: &mut Ctx) -> Result<(), Fail> {
 pub fn prop() -> Prop {
     Prop {
         id: "C17",
-        parts: vec![Part { name: "states", case, quick: 1_500_000, thorough: 30_000_000 }],
+        parts: vec![Part { name: "states", case, quick: 1_500_000, thorough: 30_000_000 }, Part { name: "deep", case: case_deep, quick: 750_000, thorough: 15_000_000 }],
         phases: vec![],
         smoltcp_panic_is_violation: true,
-        rule: "one TCP socket driven one event at a time (a generated segment through poll_ingress_single only, an egress pass only, listen/connect/close/abort/send/recv, a time advance; <=120 events, several connection life cycles per case); segment seq/ack are drawn around the values that matter (RCV.NXT, window edges, ISS+1, SND.NXT, FIN+1, +-1, random) from an independent view built from the socket's emitted segments; every observed state change must be an edge of the RFC 9293 diagram whose guard the event satisfies; non-trivial = >= 3 distinct states visited and >= 1 segment that left the state unchanged; distinct by digest of the state sequence",
+        rule: "one TCP socket driven one event at a time (a generated segment through poll_ingress_single only, an egress pass only, listen/connect/close/abort/send/recv, a time advance; <=120 events, several connection life cycles per case); segment seq/ack are drawn around the values that matter (RCV.NXT, window edges, ISS+1, SND.NXT, FIN+1, +-1, random) from an independent view built from the socket's emitted segments; every observed state change must be an edge of the RFC 9293 diagram whose guard the event satisfies; non-trivial = >= 3 distinct states visited and >= 1 segment that left the state unchanged; distinct by digest of the state sequence; part `deep` is the same loop with half of the events chosen as what the RFC expects next in the current state (the right SYN, the handshake ACK, an in-order FIN, the ACK of the own FIN, close() in CLOSE-WAIT) so that the random half meets the socket in ESTABLISHED and the closing states",
         assumptions: vec![
             "guards are necessary conditions evaluated from emitted segments and API calls; when the socket's ISS has not been observed yet the guard is not judged (counted under label guard-not-evaluable)",
             "the own FIN's sequence number is ISS+1+bytes accepted by send_slice, whether or not the FIN has been transmitted yet",
-            "in-order FIN = every earlier peer octet has arrived in some segment (necessary condition); in-window RST = sequence number within [last ACK sent, last ACK sent + last window sent]",
+            "in-order FIN = every earlier peer octet has arrived in some segment (necessary condition); in-window RST = RFC 9293 acceptability test against [last ACK sent, last ACK sent + last window sent) - right edge excluded; a zero-length segment exactly at that edge counts only when the octets that ever arrived could have filled the window",
             "the scripted peer never offers window scaling (windows are compared unscaled)",
         ],
     }
